@@ -162,6 +162,21 @@ func newWorld() *world {
 					r = append(r, farm.Reply{Delay: T - eps, Data: valid})
 				}
 				return r
+			case "big-flood-then-valid", "big-flood-only":
+				// floodN irrelevant datagrams (another controller's, and every 7th of the wrong length) spread
+				// over the whole timeout
+				r := make([]farm.Reply, 0, floodN+1)
+				for k := 0; k < floodN; k++ {
+					d := stray
+					if k%7 == 3 {
+						d = stray[:63]
+					}
+					r = append(r, farm.Reply{Delay: T/100 + time.Duration(int64(T-T/50)*int64(k)/int64(floodN)), Data: d})
+				}
+				if w.cur.behaviour == "big-flood-then-valid" {
+					r = append(r, farm.Reply{Delay: T - eps, Data: valid})
+				}
+				return r
 			case "reset":
 				return []farm.Reply{{Delay: T / 4, Reset: true}}
 			case "eof":
@@ -382,6 +397,55 @@ func portScenario(paths []string, behaviours []string, bound int) e1.Scenario {
 	return e1.Scenario{Name: fmt.Sprintf("fixed-port/%v/%v", paths, behaviours), Bound: bound, Body: body, Check: check}
 }
 
+// floodN: how many irrelevant datagrams the big-flood behaviours deliver within one timeout
+var floodN = 5000
+
+// floodScenario: "a continuous flood of irrelevant datagrams" on the broadcast path - thousands of
+// them within one timeout (more than any plausible per-call counter, queue or budget): the call keeps
+// waiting for its controller until the deadline; the reply that arrives just in time is accepted,
+// and without one the call ends at the deadline, not before. Default schedule only.
+func floodScenario(n int, withValid bool) e1.Scenario {
+	var start, end int64
+	var err error
+	var done bool
+	beh := map[bool]string{true: "big-flood-then-valid", false: "big-flood-only"}[withValid]
+	body := func() {
+		done, err = false, nil
+		floodN = n
+		w := newWorld()
+		vs.Net().Env = w.f
+		w.set(step{path: "broadcast", behaviour: beh})
+		u := mkClient(0)
+		start = vs.NowNs()
+		err = invoke(u, step{path: "broadcast", op: "GetCards"})
+		end = vs.NowNs()
+		done = true
+	}
+	check := func(e *vs.Exec) (string, []e1.Viol) {
+		viols := e1.Generic(e)
+		if e.Abort != "" {
+			return e.Abort, viols
+		}
+		d := time.Duration(end - start)
+		what := fmt.Sprintf("broadcast-path call, %d irrelevant datagrams within the timeout, valid reply at T-e: %v", n, withValid)
+		switch {
+		case !done:
+			viols = append(viols, e1.Viol{Key: "flood/call-never-returned", What: what})
+		case withValid && err != nil:
+			viols = append(viols, e1.Viol{Key: "flood/gave-up-early-or-failed", What: fmt.Sprintf("%s: failed after %v: %v", what, d, err)})
+		case !withValid && err == nil:
+			viols = append(viols, e1.Viol{Key: "flood/succeeded-without-reply", What: what})
+		case !withValid && d != T:
+			viols = append(viols, e1.Viol{Key: "flood/wrong-duration", What: fmt.Sprintf("%s: returned after %v, the timeout is %v", what, d, T)})
+		}
+		if open := vs.Net().OpenSockets(); len(open) > 0 {
+			viols = append(viols, e1.Viol{Key: "flood/socket-leak", What: what + ": " + fmt.Sprint(open)})
+		}
+		return fmt.Sprintf("flood n=%d ok=%v@%v", n, err == nil, d), viols
+	}
+	return e1.Scenario{Name: fmt.Sprintf("flood/%d/valid=%v/default-schedule", n, withValid), Bound: 0, DefaultOnly: true, Body: body, Check: check, Opt: vs.Options{Horizon: 40 * (n + 100)}}
+}
+
 // foreignPortScenario: another program's socket holds the client's fixed bind port when the call
 // starts and lets go of it part-way through the timeout (or never). Whatever the library makes of
 // that - an error at once, or waiting for the port - the call is back within one timeout of being
@@ -515,6 +579,14 @@ func main() {
 			}
 		}
 	}
+	// thousands of irrelevant datagrams within one timeout (default schedule)
+	{
+		n := 5000
+		if r.Thorough() {
+			n = 70000
+		}
+		scenarios = append(scenarios, floodScenario(n, true), floodScenario(n, false))
+	}
 	for i := range scenarios {
 		scenarios[i] = withTimeout(scenarios[i], time.Second)
 	}
@@ -534,7 +606,7 @@ func main() {
 	if r.Worker == "" && r.Replay == "" {
 		e1.Conformance(r)
 	}
-	r.Rule(fmt.Sprintf("histories: every sequence of length <= %d (fixed bind port: <= %d) over %d steps (path x network behaviour incl. silence, late and just-in-time replies, stray flood, TCP stall/refused/reset/EOF/blackhole/connection established late, ICMP unreachable, SetAddress, discovery), step by step as environment choices; histories of length <= 2 again with client timeouts of 300 ms, 1.5 s, 2.5 s and 90 s; fixed-port scenarios with 2 and 3 concurrent callers (silent holders first; TCP refused / reset / EOF / blackholed next to calls that must be served) over all interleavings within the preemption bound; the fixed bind port held by a foreign socket that lets go of it at 0.05 / 0.25 / 0.5 / 0.9 T or never (3 paths x 2 controller behaviours). distinct = distinct history/outcome labels", maxLen, maxFixed, len(alphabet)))
+	r.Rule(fmt.Sprintf("histories: every sequence of length <= %d (fixed bind port: <= %d) over %d steps (path x network behaviour incl. silence, late and just-in-time replies, stray flood, TCP stall/refused/reset/EOF/blackhole/connection established late, ICMP unreachable, SetAddress, discovery), step by step as environment choices; histories of length <= 2 again with client timeouts of 300 ms, 1.5 s, 2.5 s and 90 s; fixed-port scenarios with 2 and 3 concurrent callers (silent holders first; TCP refused / reset / EOF / blackholed next to calls that must be served) over all interleavings within the preemption bound; the fixed bind port held by a foreign socket that lets go of it at 0.05 / 0.25 / 0.5 / 0.9 T or never (3 paths x 2 controller behaviours); 5000 (thorough 70000) irrelevant datagrams within one timeout on the broadcast path, with and without a just-in-time reply (default schedule). distinct = distinct history/outcome labels", maxLen, maxFixed, len(alphabet)))
 	r.Assume("virtual time: computation takes no time, so 'within the timeout' is decided with zero scheduling slack")
 	r.Assume("network behaviours are those of mc/shim/vs/net.go (refused connect fails immediately, blackholed connect blocks until the dial deadline, ICMP unreachable surfaces as a read error)")
 	r.Finish()
